@@ -246,6 +246,7 @@ class YPPrologVisitor(prologVisitor):
         else:
             rhs = TruePredicate()
         c = Clause(lhs,rhs)
+        c.ctx = ctx
         return c
 
     def visitPredicatelist(self,ctx):
